@@ -29,7 +29,11 @@ HOMES = ["/hh", "/h h", "*", "", "a*", " /x ", "/h\th", ".h*", "a b"]
 VARS = {"e": "", "s": " a  b ", "m": "x y z", "g": "*", "g2": "a* .h", "t": "a\tb\nc", "c": "a:b c", "q": "'a b'", "w": "ab"}
 UNSET = ["n"]
 ARR = {"k": ["1 2", "", "*"], "k0": []}
-IFSES = [("unset", "u"), ("dflt", " \t\n"), ("space", " "), ("newline", "\n"), ("empty", "")]
+# white-space IFS values only: the property's statement ("default or whitespace IFS"); with any other IFS brush also
+# field-splits the LITERAL text of a word (`IFS=a; echo banana` -> `b n n`; C04 finding literal_text_split_by_ifs) and
+# drops the empty fields between adjacent delimiters (`split_cex_nonws`) — outside this property's domain
+IFSES = [("unset", "u"), ("dflt", " \t\n"), ("space", " "), ("newline", "\n"), ("empty", ""), ("tab", "\t"),
+         ("spnl", " \n")]
 ARGSETS = [[], ["a"], ["b c", ""], ["", "*", " x "], ["a", "b"]]
 
 
@@ -267,13 +271,13 @@ class Gen:
         return cat([self.piece() for _ in range(self.r.randint(1, maxp))])
 
 
-def env_fields(ifs, args, home=HOME):
+def env_fields(ifs, args, home=HOME, opts="E"):
     f = []
     if ifs == "u":
         f.append("u")
     else:
         f.append(esc("i" + ifs))
-    f.append(esc("oE"))
+    f.append(esc("o" + opts))
     f.append(esc("h" + home))
     for n, v in VARS.items():
         f.append(esc("v%s=%s" % (n, v)))
@@ -284,8 +288,9 @@ def env_fields(ifs, args, home=HOME):
     return f
 
 
-def make_line(root, ifs, args, w):
-    return " ".join([esc("d" + root)] + env_fields(ifs, args, w.home) + [esc("n" + n) for n in DIRNAMES] +
+def make_line(root, ifs, args, w, opts="E", names=None):
+    return " ".join([esc("d" + root)] + env_fields(ifs, args, w.home, opts) +
+                    [esc("n" + n) for n in (DIRNAMES if names is None else names)] +
                     ["Kb"] + [esc(t) for t in w.toks] + [esc("w" + w.text)])
 
 
@@ -357,6 +362,26 @@ def tilde_only_difference(brush, bash, home):
         else:
             return False
     return hit
+
+
+def dot_fix_matches_nullglob(impl_plain, impl_null, bash):
+    """under nullglob: `impl_plain` is the model's list without nullglob; the patterns nullglob removed are its
+    elements missing from `impl_null`. bash's list = the same with some `.`-patterns replaced by the dot-files they match"""
+    import fnmatch
+    if not (isinstance(impl_plain, list) and isinstance(impl_null, list) and isinstance(bash, list)):
+        return False
+    rest = list(impl_null)
+    fixed, hit = [], False
+    for x in impl_plain:
+        if rest and rest[0] == x:
+            rest.pop(0)
+            fixed.append(x)
+            continue
+        m = sorted(n for n in DIRNAMES if fnmatch.fnmatchcase(n, x)) if x.startswith(".") else []
+        if m:
+            hit = True
+            fixed += m
+    return hit and not rest and fixed == bash
 
 
 def dot_fix_matches(lst, bash):
@@ -486,6 +511,271 @@ def decide(ctx, root, cases, tag):
     return bouts
 
 
+
+# ------------------------------------------------------------------------------------------------
+# context sweep: a seeded sample of the words above, expanded again in other execution contexts and under
+# options, brush against bash on identical script text.  By `word_expansion_reads_only_visible_state`
+# (Props/C05.lean) the model's prediction for a context is the prediction for the environment the context shows,
+# so the driver is asked with that environment (IFS, options, directory) to name the clause of a difference.
+
+ALTNAMES = ["a", "zz", ".alt", "b c", "xyz"]          # the directory `cd` goes to between two expansions
+SWEEP_CONTEXTS = ["func", "func2", "localvars", "localifs", "subshell", "cmdsubst", "eval", "group", "lastpipe",
+                  "for", "while", "forlist", "array", "trap", "source", "cd", "heredoc-neighbour",
+                  "assign-prefix", "export", "declare"]
+# option -> (script line, model option letters or None when the model has no such option, may change results)
+SWEEP_OPTIONS = {
+    "nounset": ("set -u", "E"), "noglob": ("set -f", "Eg"), "errexit": ("set -e", "E"), "errtrace": ("set -E", "E"),
+    "functrace": ("set -T", "E"), "nohash": ("set +h", "E"), "noclobber": ("set -C", "E"),
+    "extglob": ("shopt -s extglob", "e"), "nullglob": ("shopt -s nullglob", "En"), "dotglob": ("shopt -s dotglob", "Ed"),
+    "failglob": ("shopt -s failglob", "Ef"), "nocaseglob": ("shopt -s nocaseglob", None),
+    "nocasematch": ("shopt -s nocasematch", "E"), "globstar": ("shopt -s globstar", None),
+    "expand_aliases": ("shopt -s expand_aliases", "E"), "lastpipe": ("shopt -s lastpipe", "E"),
+    "inherit_errexit": ("shopt -s inherit_errexit", "E"),
+}
+
+
+def _setargs(args):
+    return "set --" + "".join(" " + sq(a) for a in args)
+
+
+def _ifs_line(ifs, local=False):
+    if ifs == "u":
+        return "local IFS; unset IFS" if local else "unset IFS"
+    return ("local IFS=" if local else "IFS=") + sq(ifs)
+
+
+def sweep_script(items, ifs, args, ctxname, optline, nonce, srcdir, altdir, root):
+    """items: list of words. Returns (script, observations) — observations[k] = (word index, label, ifs, dir)
+    for the k-th marker; every observation prints `"$#" "$@"` (or the equivalent list) after its marker."""
+    other_ifs = " \t\n" if ifs not in (" \t\n", "u") else " "      # (white space only: C05's IFS domain)
+    L = ["shopt -u extglob nullglob failglob dotglob 2>/dev/null", "exec 3>&1"]
+    if ctxname != "localvars":
+        for n, v in VARS.items():
+            L.append("%s=%s" % (n, sq(v)))
+        for n, els in ARR.items():
+            L.append("%s=(%s)" % (n, " ".join(sq(x) for x in els)))
+    else:
+        for n in VARS:
+            L.append("%s=WRONG" % n)
+        for n in ARR:
+            L.append("%s=(WRONG 'W W')" % n)
+    for n in UNSET:
+        L.append("unset " + n)
+    L.append(_ifs_line(other_ifs if ctxname == "localifs" else ifs))
+    if optline:
+        L.append(optline)
+    obs = []
+
+    def mark(j, label, oifs=ifs, odir="root"):
+        obs.append((j, label, oifs, odir))
+        return "printf '%%s\\0' '=MARK-%s-%d='" % (nonce, len(obs) - 1)
+
+    def OBS(j, label, oifs=ifs, odir="root"):
+        return mark(j, label, oifs, odir) + ' "$#" "$@"'
+
+    sa = _setargs(args)
+    callargs = "".join(" " + sq(a) for a in args)
+    trap_body = []
+    for j, w in enumerate(items):
+        L.append("HOME=" + sq(w.home))
+        core = "set -- " + w.text
+        if ctxname == "func":
+            L += ["f%d() { %s; %s; }" % (j, core, OBS(j, "func")), "set -- zz 'y y' qq", "f%d%s" % (j, callargs),
+                  mark(j, "caller-args-after") + ' "$#" "$@"']
+        elif ctxname == "func2":
+            L += ["f%d() { %s; %s; }" % (j, core, OBS(j, "func2")), "g%d() { local zz=1; f%d \"$@\"; }" % (j, j),
+                  "set -- zz", "g%d%s" % (j, callargs)]
+        elif ctxname == "localvars":
+            loc = "; ".join("local %s=%s" % (n, sq(v)) for n, v in VARS.items())
+            loca = "; ".join("local -a %s=(%s)" % (n, " ".join(sq(x) for x in els)) for n, els in ARR.items())
+            L += ["f%d() { %s; %s; local HOME=%s; %s; %s; }" % (j, loc, loca, sq(w.home), core, OBS(j, "localvars")),
+                  "HOME=/WRONG", "f%d%s" % (j, callargs), mark(j, "globals-after") + ' 1 "$s"']
+        elif ctxname == "localifs":
+            L += ["f%d() { %s; %s; %s; }" % (j, _ifs_line(ifs, local=True), core, OBS(j, "localifs")),
+                  "f%d%s" % (j, callargs), sa, core, OBS(j, "after-localifs", other_ifs)]
+        elif ctxname == "subshell":
+            L += ["( %s; %s; %s )" % (sa, core, OBS(j, "subshell"))]
+        elif ctxname == "cmdsubst":
+            L += ["z=$( %s; %s; { %s; } >&3 )" % (sa, core, OBS(j, "cmdsubst"))]
+        elif ctxname == "eval":
+            L += [sa, "eval " + sq(core), OBS(j, "eval")]
+        elif ctxname == "group":
+            L += [sa, "{ %s; %s; } 2>/dev/null" % (core, OBS(j, "group"))]
+        elif ctxname == "lastpipe":
+            L += ["shopt -s lastpipe", sa, ": | { %s; %s; }" % (core, OBS(j, "lastpipe"))]
+        elif ctxname == "for":
+            L += ["for i in 1 2; do %s; %s; %s; done" % (sa, core, OBS(j, "for-twice"))]
+        elif ctxname == "while":
+            L += [sa, "while :; do %s; %s; break; done" % (core, OBS(j, "while"))]
+        elif ctxname == "forlist":
+            L += [sa, "r=(); for zzw in %s; do r+=(\"$zzw\"); done" % w.text, mark(j, "forlist") + ' "${#r[@]}" "${r[@]}"']
+        elif ctxname == "array":
+            L += [sa, "r=(%s)" % w.text, mark(j, "array") + ' "${#r[@]}" "${r[@]}"']
+        elif ctxname == "trap":
+            # one EXIT trap of the main shell runs all the words (a subshell's own EXIT trap is C16's business)
+            trap_body += ["HOME=" + sq(w.home), sa, core, OBS(j, "trap")]
+        elif ctxname == "source":
+            path = os.path.join(srcdir, "src-%s-%d.sh" % (nonce, j))
+            with open(path, "w") as fh:
+                fh.write(core + "\n")
+            L += [sa, ". " + sq(path), OBS(j, "source")]
+        elif ctxname == "cd":
+            L += [sa, core, OBS(j, "before-cd"), "cd " + sq(altdir), sa, core, OBS(j, "after-cd", ifs, "alt"),
+                  "cd " + sq(root), sa, core, OBS(j, "back")]
+        elif ctxname == "heredoc-neighbour":
+            # a here-document (whose body expands the same pieces) right before the word
+            L += [sa, ": <<E%d\n%s\nE%d" % (j, w.text.replace("\\", ""), j), core, OBS(j, "after-heredoc")]
+        elif ctxname == "assign-prefix":
+            L += [sa, "v=%s eval %s" % (w.text, sq(mark(j, "assign-prefix") + ' 1 "$v"'))]
+        elif ctxname == "export":
+            L += [sa, "unset v; export v=%s" % w.text, mark(j, "export") + ' 1 "$v"']
+        elif ctxname == "declare":
+            L += [sa, "unset v; declare v=%s" % w.text, mark(j, "declare") + ' 1 "$v"']
+        else:   # "top": the plain form, used with the options
+            L += [sa, core, OBS(j, "top"), sa, core, OBS(j, "top-again")]
+    if trap_body:
+        L.append("trap " + sq("\n".join(trap_body)) + " EXIT")
+    return "\n".join(L) + "\n", obs
+
+
+ASSIGN_CONTEXTS = ("assign-prefix", "export", "declare")
+
+
+def sweep(ctx, root, pool):
+    """pool: the cases of the main stage (w, ifsname, ifs, args); a seeded sample goes through every context and option"""
+    rng = ctx.rng
+    altdir = tempfile.mkdtemp(prefix="c05-alt-")
+    srcdir = tempfile.mkdtemp(prefix="c05-src-")
+    try:
+        c04.make_dir(altdir, ALTNAMES)
+        variants = [(c, None) for c in SWEEP_CONTEXTS] + [("top", o) for o in SWEEP_OPTIONS] + \
+                   [(rng.choice(["func", "subshell", "eval", "localifs"]), o) for o in SWEEP_OPTIONS]
+        per = ctx.size(60, 1500)
+        jobs = []
+        for (cname, oname) in variants:
+            sample = [pool[rng.randrange(len(pool))] for _ in range(per)]
+            groups = {}
+            for (w, n, ifs, args) in sample:
+                if "${n}" in w.text and oname == "nounset":
+                    continue            # `set -u` with nothing unset
+                if oname == "errexit" and ("cmd" in w.feats):
+                    pass
+                groups.setdefault((ifs, tuple(args)), []).append(w)
+            for (ifs, args), ws in groups.items():
+                for ch in lib.chunked(ws, max(1, len(ws) // 30 + 1)):
+                    jobs.append((cname, oname, ifs, list(args), ch))
+
+        def one(job):
+            cname, oname, ifs, args, ws = job
+            nonce = "%08x" % random.getrandbits(32)
+            optline = SWEEP_OPTIONS[oname][0] if oname else None
+            sc, obs = sweep_script(ws, ifs, args, cname, optline, nonce, srcdir, altdir, root)
+            ob = c04.split_records(run_script("brush", sc, root), nonce, len(obs))
+            oo = c04.split_records(run_script("bash", sc, root), nonce, len(obs))
+            return sc, obs, ob, oo
+        res = lib.pmap(one, jobs, workers=WORKERS)
+        # model predictions (for naming the clause of a difference) for every observation that differs
+        pend = []
+        for (cname, oname, ifs, args, ws), (sc, obs, ob, oo) in zip(jobs, res):
+            for k, (j, label, oifs, odir) in enumerate(obs):
+                w = ws[j]
+                ctx.count(("sweep", cname, oname, w.text, oifs, tuple(args), label), nontrivial=len(w.toks) >= 2,
+                          bucket="sweep:%s" % (oname or cname))
+                ctx.impl_validated += 1
+                b, o = _as_list(ob[k]), _as_list(oo[k])
+                if b != o:
+                    pend.append((cname, oname, oifs, args, w, label, odir, b, o, sc))
+        def errored(oname, b, args):
+            # under failglob a failed expansion aborts `set -- WORD`: nothing is printed, or the list set before it
+            return oname == "failglob" and (b is None or b == list(args))
+
+        def letters_of(oname, b, args, keep_f=False):
+            l = (SWEEP_OPTIONS[oname][1] if oname else "E") or "E"
+            # a failglob error in brush where bash has a result: classify what brush does without failglob
+            return l.replace("f", "") if errored(oname, b, args) and not keep_f else l
+        lines = [make_line(root, oifs, args, w, letters_of(oname, b, args), ALTNAMES if odir == "alt" else None)
+                 for (cname, oname, oifs, args, w, label, odir, b, o, sc) in pend]
+        mouts = lib.run_drv_parallel(["C04 " + l for l in lines], workers=WORKERS) if lines else []
+        # `local IFS` left unset: is brush's list what an EMPTY IFS would give?
+        # nullglob: the model's list without it, to see which patterns were removed
+        nlines = [make_line(root, p[2], p[3], p[4], "E", ALTNAMES if p[6] == "alt" else None) for p in pend if p[1] == "nullglob"]
+        nouts = iter(lib.run_drv_parallel(["C04 " + l for l in nlines], workers=WORKERS) if nlines else [])
+        elines = [make_line(root, "", p[3], p[4], letters_of(p[1], p[7], p[3], keep_f=True)) for p in pend
+                  if p[0] == "localifs" and p[2] == "u" and p[5] == "localifs"]
+        eouts = iter(lib.run_drv_parallel(["C04 " + l for l in elines], workers=WORKERS) if elines else [])
+        nv = 0
+        for (cname, oname, oifs, args, w, label, odir, b, o, sc), m in zip(pend, mouts):
+            parts = m.split(" %| ")
+            impl, unmod = c04.parse_res(parts[0])
+            spec, _ = c04.parse_res(parts[1]) if len(parts) > 1 else ("?", False)
+            dflags = parts[2][1:] if len(parts) > 2 and parts[2].startswith("D") else "?"
+            no_model_option = bool(oname) and SWEEP_OPTIONS[oname][1] is None
+            modelled = cname not in ASSIGN_CONTEXTS and label not in ("caller-args-after", "globals-after")
+            case = {"sweep": True, "context": cname, "option": oname, "observation": label, "word": w.text,
+                    "tokens": w.toks, "feats": sorted(w.feats), "home": w.home, "ifs": oifs, "args": args,
+                    "brush": b, "bash": o, "impl": impl if modelled and not no_model_option else None,
+                    "spec": spec if modelled and not no_model_option else None, "outside_domain": dflags}
+            b_eff = impl if (errored(oname, b, args) and isinstance(impl, list)) else b
+            if cname in ASSIGN_CONTEXTS:
+                cl = assign_clause(w, oifs, b, o)
+            elif not modelled:
+                cl = None
+            elif no_model_option:
+                # nocaseglob / globstar are not in the model: the domain flags still say which recorded defect the word
+                # is exposed to; brush itself stands in for the model's list
+                cl = clause_of(w, oifs, args, b, o, b, spec if spec == o else o, dflags)
+            elif b_eff != impl:
+                cl = None
+            else:
+                cl = clause_of(w, oifs, args, b_eff, o, impl, spec, dflags)
+            if oname == "nullglob":
+                impl_plain, _ = c04.parse_res(next(nouts).split(" %| ")[0])
+                if not cl and modelled and b == impl and dot_fix_matches_nullglob(impl_plain, impl, o):
+                    cl = "leading_empty_quoted_piece_hides_dotfiles"
+            if cname == "localifs" and oifs == "u" and label == "localifs":
+                impl_empty, _ = c04.parse_res(next(eouts).split(" %| ")[0])
+                if (b == impl_empty or (errored(oname, b, args) and impl_empty is None)) and (o == spec or no_model_option):
+                    cl = "unset_local_ifs_treated_as_empty"
+            what = "in context %s%s (%s) the argument list differs from bash's: brush %r, bash %r" % (
+                cname, " under " + oname if oname else "", label, b, o)
+            if cl:
+                ctx.known_or_violation(cl, what, case)
+            elif nv < 25:
+                nv += 1
+                ctx.violation(what, case)
+    finally:
+        shutil.rmtree(altdir, ignore_errors=True)
+        shutil.rmtree(srcdir, ignore_errors=True)
+
+
+def _as_list(r):
+    """records after a marker: `"$#" "$@"` -> the argument list, None when missing or inconsistent"""
+    if not r:
+        return None
+    try:
+        k = int(r[0])
+    except ValueError:
+        return None
+    return r[1:] if len(r) == k + 1 else None
+
+
+def assign_clause(w, ifs, brush, bash):
+    """assignment values (`v=WORD cmd`, `export v=WORD`, `declare v=WORD`) are not modelled; the feature-triggered
+    classes of difference:"""
+    ifsv = " \t\n" if ifs == "u" else ifs
+    if "brace" in w.feats:
+        return "brace_expansion_in_assignment_value"
+    if "star" in w.feats and ifsv == "":
+        return "star_joined_with_space_when_ifs_empty"
+    # `v=$@x` / `v=${k[*]}"q"`: the separator between the elements is chosen by the LAST piece of the word
+    # (coalesce_expansions keeps the last piece's `concatenate`), not by the `$@`/`$*` piece itself
+    if ({"at", "star"} & w.feats) and ifsv[:1] not in ("", " ") and isinstance(brush, list) and isinstance(bash, list) \
+            and len(brush) == 1 and len(bash) == 1 and len(brush[0]) == len(bash[0]) \
+            and all(x == y or {x, y} == {ifsv[0], " "} for x, y in zip(brush[0], bash[0])):
+        return "array_join_in_assignment_follows_last_piece"
+    return None
+
+
 def small_words():
     """exhaustive family: every pair of pieces from a fixed list (seed-independent)"""
     base = [P("a", ["Ta"]), P("*", ["T*"], {"glob"}), P("${s}", ["Vs"], {"var"}), P("${e}", ["Ve"], {"var"}),
@@ -538,7 +828,7 @@ def run(ctx):
         ncorp = len(cases)
         sw = small_words()
         for i, w in enumerate(sw):
-            for (n, ifs) in (IFSES if not ctx.quick else [IFSES[i % 5], IFSES[(i + 2) % 5]]):
+            for (n, ifs) in (IFSES if not ctx.quick else [IFSES[i % len(IFSES)], IFSES[(i + 3) % len(IFSES)]]):
                 cases.append((w, n, ifs, ARGSETS[(i + len(n)) % len(ARGSETS)]))
         nsmall = len(cases)
         for _ in range(ctx.size(12000, 120000)):
@@ -549,6 +839,7 @@ def run(ctx):
             cases.append((w, n, ifs, args))
         bouts = decide(ctx, root, cases[:nsmall], "exh")
         decide(ctx, root, cases[nsmall:], "rand")
+        sweep(ctx, root, cases)
         ctx.sample({"word": cases[ncorp][0].text, "tokens": cases[ncorp][0].toks, "brush_inproc": bouts[ncorp]})
         ctx.sample({"word": cases[-1][0].text, "tokens": cases[-1][0].toks, "ifs": cases[-1][2], "args": cases[-1][3]})
     finally:
@@ -572,6 +863,25 @@ def replay(ctx, rp):
     root = tempfile.mkdtemp(prefix="c05-dir-")
     try:
         c04.make_dir(root, DIRNAMES)
+        if c.get("sweep"):
+            w = P(c["word"], c["tokens"], c.get("feats", ()), home=c.get("home"))
+            altdir = tempfile.mkdtemp(prefix="c05-alt-")
+            srcdir = tempfile.mkdtemp(prefix="c05-src-")
+            c04.make_dir(altdir, ALTNAMES)
+            # the context's own IFS is the one the word is expanded under; `after-localifs` ran under the outer one
+            ifs = c["ifs"]
+            optline = SWEEP_OPTIONS[c["option"]][0] if c.get("option") else None
+            sc, obs = sweep_script([w], ifs, c["args"], c["context"], optline, "r", srcdir, altdir, root)
+            ob = c04.split_records(run_script("brush", sc, root), "r", len(obs))
+            oo = c04.split_records(run_script("bash", sc, root), "r", len(obs))
+            shutil.rmtree(altdir, ignore_errors=True)
+            shutil.rmtree(srcdir, ignore_errors=True)
+            print(sc)
+            bad = 0
+            for k, (j, label, oifs, odir) in enumerate(obs):
+                print("%-18s brush %r\n%-18s bash  %r" % (label, _as_list(ob[k]), "", _as_list(oo[k])))
+                bad |= _as_list(ob[k]) != _as_list(oo[k])
+            return 1 if bad else 0
         w = P(c["word"], c["tokens"], c.get("feats", ()), home=c.get("home"))
         line = make_line(root, c["ifs"], c["args"], w)
         _, b, _ = lib.run_vh(BIN, [line])
